@@ -39,6 +39,36 @@ def contents_of(st, name):
     return "contents-of-%d-%s" % (st, name)
 
 
+def file_bytes(st, name, path):
+    """What the harness writes into <working dir of stage<st>.<name>>/<path>: one file per class of contents."""
+    tag = ("%d-%s" % (st, name)).encode()
+    base = os.path.basename(path)
+    return {
+        "out.txt": contents_of(st, name).encode(),                 # plain, no trailing newline
+        "x.txt": b"sub-x-of-" + tag,
+        "nl.txt": b"one-line-of-" + tag + b"\n",                    # trailing newline
+        "nl2.txt": b"two-newlines-of-" + tag + b"\n\n",
+        "crlf.txt": b"first-" + tag + b"\r\nsecond\r\n",            # CRLF line ends
+        "cr.txt": b"before-" + tag + b"\rafter",                   # a lone carriage return
+        "tab.txt": b"col1-" + tag + b"\tcol2",
+        "utf8.txt": ("caf\u00e9-\u03bb\u2013" + tag.decode()).encode("utf-8"),
+        "bin.txt": b"ok-" + tag + b"-\xff\xfe-end",                # not valid utf-8
+        "empty.txt": b"",
+        "inner.txt": b"line1-" + tag + b"\nline2",                 # a newline inside
+        "blank.txt": b"  padded " + tag + b"  ",                   # leading / trailing blanks
+    }[base]
+
+
+def output_value(data):
+    """The documented value of an :output reference: the contents decoded as utf-8 (undecodable bytes -> U+FFFD) minus
+    the trailing newline characters; everything else verbatim."""
+    return data.decode("utf-8", "replace").rstrip("\n")
+
+
+PRODUCER_FILES = ("out.txt", "sub/x.txt", "nl.txt", "nl2.txt", "crlf.txt", "cr.txt", "tab.txt", "utf8.txt", "bin.txt",
+                  "empty.txt", "inner.txt", "blank.txt")
+
+
 def spelled(ref, sp):
     return R(ref["absolute"] if sp == "abs" else ref["rel"])
 
@@ -69,7 +99,14 @@ def input_cause(case):
     present = [c for c in ("reference-contained-in-another-reference", "both-spellings-of-a-reference-in-one-line",
                            "value-contains-text-of-a-declared-reference") if c in causes]
     # one key per case: the first relation in this fixed order (so the classes are disjoint and few)
-    return present[0] if present else None
+    if present:
+        return present[0]
+    used = [d for d in decl if d["usage"]]
+    if any(R(d["file"]) and os.path.normpath(R(d["file"])) != R(d["file"]) or "*" in R(d["file"]) for d in used):
+        return "file-part-spelled-unnormalised-or-glob"
+    if any(d["kind"] == "out" and R(d["file"]) != "out.txt" for d in used):
+        return "output-file-contents-class"
+    return None
 
 
 class Runner:
@@ -132,16 +169,30 @@ class Runner:
             node = exp.graph.nodes["stage%d.%s" % (st, nm)]
             if os.path.normpath(node["componentInstance"].directory) != os.path.normpath(d):
                 raise MachineryError("working directory convention changed: %s vs %s" % (node["componentInstance"].directory, d))
-            os.makedirs(d, exist_ok=True)
+            os.makedirs(os.path.join(d, "sub"), exist_ok=True)
+            os.makedirs(os.path.join(d, "outputs"), exist_ok=True)
             quoted = [R(u["quotes"]) for u in universe if u["kind"] == "out" and u.get("quotes") and (u["st"], R(u["name"])) == (st, nm)]
-            with open(os.path.join(d, "out.txt"), "w") as f:
-                f.write(quoted[0] if quoted else contents_of(st, nm))
+            for rel in PRODUCER_FILES:
+                with open(os.path.join(d, rel), "wb") as f:
+                    f.write(quoted[0].encode() if (quoted and rel == "out.txt") else file_bytes(st, nm, rel))
             values[(st, nm)] = d
-        valmap = {}
+        # value of every reference of the universe, computed by the harness from the files it wrote.  A path value is
+        # accepted verbatim (directory + file part as written) or normalised: both are "the path of the referenced file"
+        valmap, valnorm = {}, {}
         for u in universe:
-            d = values[(u["st"], R(u["name"]))]
-            valmap[u["val"]] = {"ref": d, "reff": os.path.join(d, "out.txt"), "out": contents_of(u["st"], R(u["name"])),
-                                "copy": None}[u["kind"]]      # (a quoting :output value is spelled out by the spec itself)
+            st, nm = u["st"], R(u["name"])
+            d = values[(st, nm)]
+            fpart = R(u.get("file", []))
+            if u["kind"] == "ref":
+                valmap[u["val"]] = os.path.join(d, fpart) if fpart else d
+                valnorm[u["val"]] = os.path.normpath(valmap[u["val"]])
+            elif u["kind"] == "out":
+                target = os.path.normpath(os.path.join(d, fpart.replace("out.*", "out.txt")))   # the one file the glob matches
+                rel = os.path.relpath(target, d)
+                valmap[u["val"]] = valnorm[u["val"]] = output_value(file_bytes(st, nm, rel))   # (a quoting value is spelled out by the spec)
+            else:
+                valmap[u["val"]] = valnorm[u["val"]] = None
+        self.valnorm = valnorm
         for nm, case in zip(names, cases):
             self.run_case(exp, "stage1." + nm, case, valmap, universe)
         self.chk.trace_validated()
@@ -170,6 +221,7 @@ class Runner:
         spec = exp.graph.nodes[node]["componentSpecification"]
         self.chk.evaluated(self.case_key(case))
         want = self.render(case["expected"], valmap)
+        want_norm = self.render(case["expected"], self.valnorm)
         seq = self.render(case["sequential"], valmap)
         short = {v: "<%s>" % k for k, v in valmap.items() if v}
 
@@ -187,7 +239,7 @@ class Runner:
         except Exception as e:
             got = "raised %r" % e
         if case["fault"] == "none" or case["fault"] == "unused":
-            if got != want:
+            if got != want and got != want_norm:
                 self.stats["mismatch"] += 1
                 if got == seq:
                     self.stats["mismatch_predicted_by_sequential"] += 1
@@ -213,7 +265,7 @@ class Runner:
             verdict = "raised %s" % type(e).__name__
         if verdict != case["verdict"]:
             if case["fault"] == "none":
-                key = "subst:" + (cause or "verdict-on-valid-component") if got != want else "verdict:valid-component-rejected:" + (cause or "plain")
+                key = "subst:" + (cause or "verdict-on-valid-component") if got not in (want, want_norm) else "verdict:valid-component-rejected:" + (cause or "plain")
                 what = "checkDataReferences rejects (%s) the valid component declaring %s with arguments %r" % (verdict, declared, R(case["args"]))
             else:
                 key = ("subst:" + cause) if cause else "verdict:%s-reference-not-reported" % case["fault"]
@@ -238,14 +290,20 @@ def run(tier):
         fams = [("RefUQuick", 2, ("plain",), True, True),
                 ("RefUQuick", 2, ("opt", "path"), False, False),
                 ("RefUThree", 3, ("plain",), False, False),
-                ("RefUQuote", 3, ("plain",), False, False)]
+                ("RefUQuote", 3, ("plain",), False, False),
+                ("RefUContents", 2, ("plain", "opt"), False, False),
+                ("RefUPaths", 2, ("plain", "path"), False, False)]
     else:
         fams = [("RefUQuick", 2, ("plain", "opt", "path"), True, True),
                 ("RefUSix", 3, ("plain",), True, False),
                 ("RefUWide", 2, ("plain", "opt"), False, True),
                 ("RefUWide", 3, ("path",), False, False),
                 ("RefUQuote", 3, ("plain", "opt"), False, False),
-                ("RefUQuote", 2, ("plain",), True, False)]
+                ("RefUQuote", 2, ("plain",), True, False),
+                ("RefUContents", 2, ("plain",), True, False),
+                ("RefUContents", 2, ("opt", "path"), False, False),
+                ("RefUPaths", 2, ("plain",), True, False),
+                ("RefUPaths", 2, ("path",), False, False)]
     runner = Runner(chk)
     total = 0
     for k, (refu, maxrefs, styles, full, faults) in enumerate(fams):
@@ -264,7 +322,7 @@ def run(tier):
         c1b = _cfg(os.path.join(gen, "Subst_dev_%s_%d.cfg" % (tier, k)),
                    family_cfg(refu, maxrefs, styles, full, faults, False) + "SPECIFICATION Spec\nINVARIANT SequentialAgrees\nCHECK_DEADLOCK FALSE\n")
         res = tlc.run_tlc("Subst", c1b, timeout=900, workers=1, expect_violation=True)
-        if res["violated"] != "SequentialAgrees":
+        if res["violated"] != "SequentialAgrees" and refu != "RefUContents":     # (that family varies the VALUES, not the names)
             raise MachineryError("family %d has no input on which sequential replacement differs from exact substitution "
                                  "(the check would be vacuous): %s" % (k, res["out"][-800:]))
         # 2. cases
@@ -299,7 +357,9 @@ def run(tier):
         raise MachineryError("no emitted case distinguishes sequential replacement from exact substitution")
     chk.cov["substitution_stats"] = dict(runner.stats)
     chk.cov["rule"] = ("one case per resolved state of spec/Subst.tla: ordered selection of <= MaxRefs references of the universe "
-                       "(names A, BA, B-A, x.A, AB, A0 in stages 0 and 1; :ref, file :ref, :output, :copy), usage (relative / absolute "
+                       "(names A, BA, B-A, x.A, AB, A0 in stages 0 and 1; :ref, file :ref, :output, :copy; file parts spelled with a trailing "
+                       "slash, ./, //, .., globs; :output files with trailing newlines, CRLF, CR, tabs, non-ASCII, undecodable bytes, "
+                       "empty, inner newlines, blanks), usage (relative / absolute "
                        "/ both / twice), style of the command line, plus unused / undeclared faults; every case is a consumer "
                        "component of a real instantiated experiment; traces = experiments built")
     chk.cov["exhaustive"] = True
